@@ -1,14 +1,24 @@
 package main
 
 import (
+	"encoding/json"
 	"fmt"
+	"os"
+	"os/exec"
+	"path/filepath"
+	"regexp"
+	"sort"
+	"strings"
+	"sync"
 
 	"lv/an"
 	"lv/rules"
 )
 
-// thoroughExtras re-runs the property's rules under two more build
-// configurations and requires the same verdicts.
+// thoroughExtras: (1) re-run the property's rules under two more build
+// configurations and require the same verdicts; (2) self-validation: apply
+// every seeded fault recorded for this property to a scratch copy of the
+// current tree and require that the check reports it.
 func thoroughExtras(prop *rules.Prop, tables *an.Tables, base *propRun) {
 	if base.loadErr != nil {
 		return
@@ -41,9 +51,174 @@ func thoroughExtras(prop *rules.Prop, tables *an.Tables, base *propRun) {
 		cfgs = append(cfgs, c)
 	}
 	base.extraCov["build_configurations"] = cfgs
+
+	res := selfValidate(prop.ID)
+	sum := map[string]any{"mutants": len(res)}
+	var missed, skipped, caught []string
+	for _, m := range res {
+		switch m.Outcome {
+		case "detected":
+			caught = append(caught, m.Name+" ["+strings.Join(m.Rules, ",")+"]")
+		case "skipped":
+			skipped = append(skipped, m.Name+": "+m.Note)
+		default:
+			missed = append(missed, m.Name)
+			fmt.Printf("SELFTEST-MISS: property=%s seeded fault %s is not reported by this check (%s)\n", prop.ID, m.Name, m.Note)
+		}
+	}
+	sum["detected"], sum["missed"], sum["skipped"] = caught, missed, skipped
+	base.extraCov["self_validation"] = sum
+	fmt.Printf("  self-validation: %d seeded faults for %s: %d detected, %d missed, %d skipped\n", len(res), prop.ID, len(caught), len(missed), len(skipped))
+}
+
+type mutant struct {
+	Name    string   `json:"name"`
+	Dir     string   `json:"dir"`
+	Props   []string `json:"properties"`
+	Outcome string   `json:"outcome"` // detected | missed | skipped
+	Rules   []string `json:"rules_fired"`
+	Note    string   `json:"note"`
+}
+
+// listMutants reads /verif/selftest/mutants/* (expect.json) and /verif/seeded/*/ (meta.json).
+func listMutants(vd string) []mutant {
+	var out []mutant
+	dirs, _ := filepath.Glob(filepath.Join(vd, "selftest", "mutants", "*"))
+	for _, d := range dirs {
+		var e struct {
+			Properties []string `json:"properties"`
+		}
+		b, err := os.ReadFile(filepath.Join(d, "expect.json"))
+		if err != nil || json.Unmarshal(b, &e) != nil {
+			continue
+		}
+		out = append(out, mutant{Name: filepath.Base(d), Dir: d, Props: e.Properties})
+	}
+	seeded, _ := filepath.Glob(filepath.Join(vd, "seeded", "*"))
+	for _, d := range seeded {
+		var e struct {
+			Property string   `json:"property"`
+			Also     []string `json:"also_properties"`
+			Expected string   `json:"expected"`
+		}
+		b, err := os.ReadFile(filepath.Join(d, "meta.json"))
+		if err != nil || json.Unmarshal(b, &e) != nil {
+			continue
+		}
+		if e.Expected == "not-detected" {
+			continue // recorded limits of the technique (DESIGN.md), not part of self-validation
+		}
+		out = append(out, mutant{Name: "seeded/" + filepath.Base(d), Dir: d, Props: append([]string{e.Property}, e.Also...)})
+	}
+	sort.Slice(out, func(i, j int) bool { return out[i].Name < out[j].Name })
+	return out
+}
+
+var ruleFired = regexp.MustCompile(`(?m)^rule (\S+) violated`)
+
+// runMutant applies one mutant to a scratch copy of the current tree and runs
+// the check for prop against it in a subprocess.
+func runMutant(m mutant, prop string) mutant {
+	scratch, err := os.MkdirTemp("", "lvmut-")
+	if err != nil {
+		m.Outcome, m.Note = "skipped", err.Error()
+		return m
+	}
+	defer os.RemoveAll(scratch)
+	dst := filepath.Join(scratch, "repo")
+	if out, err := exec.Command("cp", "-a", repoDir(), dst).CombinedOutput(); err != nil {
+		m.Outcome, m.Note = "skipped", "copy failed: "+string(out)
+		return m
+	}
+	ap := exec.Command("git", "apply", "--whitespace=nowarn", filepath.Join(m.Dir, "patch.diff"))
+	ap.Dir = dst
+	if out, err := ap.CombinedOutput(); err != nil {
+		m.Outcome, m.Note = "skipped", "patch no longer applies to the current tree: "+strings.TrimSpace(string(out))
+		return m
+	}
+	exe, _ := os.Executable()
+	cmd := exec.Command(exe, "check", prop, "--no-write")
+	cmd.Env = append(os.Environ(), "LV_REPO="+dst, "LV_VERIF="+verifDir())
+	out, _ := cmd.CombinedOutput()
+	if strings.Contains(string(out), "ANALYSIS-ERROR") && !strings.Contains(string(out), "VIOLATION") {
+		m.Outcome, m.Note = "skipped", "the mutated tree does not load: "+firstLine(string(out))
+		return m
+	}
+	seen := map[string]bool{}
+	for _, g := range ruleFired.FindAllStringSubmatch(string(out), -1) {
+		if !seen[g[1]] {
+			seen[g[1]] = true
+			m.Rules = append(m.Rules, g[1])
+		}
+	}
+	sort.Strings(m.Rules)
+	if strings.Contains(string(out), "VIOLATION property="+prop) {
+		m.Outcome = "detected"
+	} else {
+		m.Outcome, m.Note = "missed", "no violation reported"
+	}
+	return m
+}
+
+func firstLine(s string) string {
+	if i := strings.Index(s, "\n"); i >= 0 {
+		return s[:i]
+	}
+	return s
+}
+
+// selfValidate runs every mutant recorded for prop ("" = each mutant against each of its properties).
+func selfValidate(prop string) []mutant {
+	var jobs []struct {
+		m mutant
+		p string
+	}
+	for _, m := range listMutants(verifDir()) {
+		for _, p := range m.Props {
+			if prop == "" || p == prop {
+				jobs = append(jobs, struct {
+					m mutant
+					p string
+				}{m, p})
+			}
+		}
+	}
+	res := make([]mutant, len(jobs))
+	sem := make(chan struct{}, 6)
+	var wg sync.WaitGroup
+	for i, j := range jobs {
+		wg.Add(1)
+		go func(i int, m mutant, p string) {
+			defer wg.Done()
+			sem <- struct{}{}
+			defer func() { <-sem }()
+			r := runMutant(m, p)
+			r.Name = r.Name + "@" + p
+			res[i] = r
+		}(i, j.m, j.p)
+	}
+	wg.Wait()
+	return res
 }
 
 func cmdSelftest(args []string) int {
-	fmt.Println("selftest: not built yet")
+	prop := ""
+	if len(args) > 0 {
+		prop = args[0]
+	}
+	res := selfValidate(prop)
+	miss := 0
+	for _, m := range res {
+		fmt.Printf("%-9s %-70s %s %s\n", m.Outcome, m.Name, strings.Join(m.Rules, ","), m.Note)
+		if m.Outcome == "missed" {
+			miss++
+		}
+	}
+	fmt.Printf("selftest: %d seeded faults, %d missed\n", len(res), miss)
+	if miss > 0 {
+		return 1
+	}
 	return 0
 }
+
+var _ = rules.IDs
